@@ -255,7 +255,11 @@ pub fn parse_glob(p: &str) -> GlobParse {
                         items.push((body[k], body[k + 2]));
                         k += 3;
                     } else {
-                        if body[k] == '-' || body[k] == '[' || body[k] == '!' {
+                        // a '-' standing first or last in the set is a literal
+                        // member (sh, fnmatch and the glob crate agree); anywhere
+                        // else a lone '-' is outside the subset
+                        let edge = k == 0 || k + 1 == body.len();
+                        if (body[k] == '-' && !edge) || body[k] == '[' || body[k] == '!' {
                             return GlobParse::OutOfSubset;
                         }
                         items.push((body[k], body[k]));
